@@ -427,6 +427,46 @@ def rule_inc_fail_on_destructed(ctx):
     return r
 
 
+def rule_window_fresh(ctx):
+    """4-bit stamps only mean something relative to a window `Modular::new(current epoch + 1)`.  The cascade re-pins while
+    it runs (every 128 nodes, and in the recursion into earlier children), so the global epoch can advance by any amount
+    inside one frame: a window built before such a point is stale, and a stamp newer than it wraps around and is read as
+    ancient (F17)."""
+    r = RuleResult("CW-WINDOW-FRESH", ["C02", "C12"],
+                   "every Modular::max / Modular::le of the cascade uses a window built from a global_epoch() read made after "
+                   "the last point of the path at which the thread may have been re-pinned (recursive call, repin)")
+    prog = ctx.prog
+    from .sym import Exec
+    REPIN = ("ebr_impl::internal::Local::repin_without_collect", "ebr_impl::internal::Local::repin_unless_foreign_guards",
+             "ebr_impl::internal::Local::repin", DGN)
+    n = 0
+    seen = set()
+    b = prog.body(DGN)
+    r.functions.add(DGN)
+    for p in Exec(prog, unroll=2).paths(b):
+        r.paths += 1
+        for i, e in enumerate(p.events):
+            if e.kind != "call" or norm(e.target or "") not in ("utils::Modular::max", "utils::Modular::le"):
+                continue
+            ge = calls_in(e.args[0], "ebr_impl::default::global_epoch")
+            lastpin = max([k for k, q in enumerate(p.events[:i]) if q.kind == "call" and q.target in REPIN] or [-1])
+            reads = [k for k, q in enumerate(p.events[:i]) if q.kind == "call" and q.result in ge]
+            fresh = bool(reads) and max(reads) > lastpin
+            key = (e.bb, norm(e.target), fresh)
+            if key in seen:
+                continue
+            seen.add(key)
+            n += 1
+            r.instance("%s at %s: window read after the last re-pin point" % (norm(e.target).split("::")[-1], e.loc()), fresh)
+            if not fresh:
+                r.violate(DGN, "stale-window:" + norm(e.target).split("::")[-1], "the stamps are compared in a window built from "
+                          "an epoch read made before %s: the thread may have been re-pinned since and the global epoch may "
+                          "have advanced by any amount, so a recent stamp wraps around and is read as ancient"
+                          % (p.events[lastpin].target.split("::")[-1] if lastpin >= 0 else "?"), e.loc())
+    r.require(n, 2, "modular comparisons in the cascade")
+    return r
+
+
 def rule_upgrade_trace(ctx):
     """A Snapshot handed out through a weak pointer did not come through a link of an owner, so no link stamp and no
     owner's decrement stamp says that somebody may be looking at the object *now*.  If the check that grants it leaves no
